@@ -47,6 +47,8 @@ impl<Consumer> Buffer<Consumer>
         if self.key_hashes.len() >= self.capacity.0 {
             debug!("Draining the buffer");
             self.consumer.accept(BufferEvent::Full(self.key_hashes.clone()));
+            #[cfg(cached_verif)]
+            crate::cache::verif::point("pool.add.mid");
             self.key_hashes.clear();
         }
         self.key_hashes.push(key_hash);
